@@ -397,6 +397,15 @@ def proc_cases(rng, tier, ifaces):
         s = b''.join(msgs)
         for sched in ('-', ','.join(str(rng.randint(1, n)) for _ in range(len(s)))):
             out.append(Case(f'PROC echo {n} {hx(s)} {sched}', proc_query_oracle, {'shape': len(vals), 'values': vals, 'kind': 'PROC-queries'}))
+        if n == 64 and vals:
+            # the same queries, then a message whose string holds a line feed (it produces no output), then one more query:
+            # exactly one response per query, in order (nothing answered twice)
+            tail = rng.choice([b'STR "a\nb"\n', b'BLK #13x\ny\n', b"SYST:STR 'p\n\nq';:X\n"]) + b'ECHO:U8? 9\n'
+            s2 = msgs[0] + tail
+            if len(msgs[0]) + len(tail) <= 64:
+                for sched in ('-', ','.join(['1'] * len(s2))):
+                    out.append(Case(f'PROC echo 64 {hx(s2)} {sched}', proc_query_oracle,
+                                    {'shape': 2, 'values': [vals[0], ('int', 'u8', 9)], 'kind': 'PROC-queries-lf'}))
     return out
 
 
